@@ -10,10 +10,8 @@
      property itself outside the known findings: outside_classes_flat_sound.
    - With nested blocks the scope is complete up to its two conjuncts that follow the run of
      shake_1 (dyn_run, dyn_match: executable; scope_complete_dyn, converse scope_dyn), hence
-     outside_classes_sound.  The statement without them (Pending/C01_complete_open.v) is neither
-     proved nor refuted: a bounded exhaustive search (~6000 rules with nested blocks, 16 switch
-     sets, two orders) and every generated rule of the checks found no loadable rule outside the
-     scope with the three classifiers false.
+     outside_classes_sound.  The statement without them is proved in Properties/C01_outside.v
+     (scope_complete, outside_listed_classes_sound).
    Only statements here; proofs live in Proofs/C01_complete.v. *)
 From Coq Require Import Permutation.
 From TauModel Require Import Base Num Oracles Syntax Value Yaml Pratt ParseMap Solver Rule Keys Optimiser Known.
